@@ -307,7 +307,10 @@ def run_shard(binpath, j, idx, seed, outdir):
     timeout = j["budget_s"] * 4 + 120
     try:
         r = subprocess.run(cmd, env=env, stdout=subprocess.PIPE, stderr=subprocess.PIPE, timeout=timeout)
-        rc, err = r.returncode, r.stderr.decode(errors="replace")[-4000:]
+        err = r.stderr.decode(errors="replace")
+        if len(err) > 16000:  # keep the head (sanitizer report headers) and the tail
+            err = err[:10000] + "\n[...]\n" + err[-6000:]
+        rc = r.returncode
     except subprocess.TimeoutExpired:
         rc, err = "timeout", f"watchdog fired after {timeout}s"
     rep = None
